@@ -153,6 +153,47 @@ Proof.
   destruct (loop _ _ _ _ _) as [s'|a|a]; [reflexivity| |]; by replace (k' =? 1) with false by lia.
 Qed.
 
+(* ==================== loop_r (failing rollback) against loop ==================== *)
+Lemma loop_r_locked P now p k rest : forall a, locked a rest ->
+  loop_r P now p k a rest = loop P now p a rest.
+Proof.
+  induction rest as [|bh rest IH]; intros a (pn & Hl & Hc); [reflexivity|].
+  cbn [connected] in Hc. apply andb_true_iff in Hc as [Hc1 Hc2].
+  cbn [loop_r loop]. unfold step_header_r.
+  rewrite (reorg_point_connects P now p a bh rest pn Hl) by lia.
+  destruct (step_header P now p a bh rest) as [s'|a'|a'] eqn:Es; [reflexivity| |reflexivity].
+  apply IH. destruct (step_continue_kind P now p a bh rest pn a' Hl Es) as [[_ Hne]|(nd & Hnd & Hb)]; [lia|].
+  exists nd. split; [exact Hnd|]. by rewrite Hb.
+Qed.
+
+Lemma loop_r_cases P now p k hs : headers_connected hs = true -> forall a,
+  loop_r P now p k a hs = loop P now p a hs \/
+  (exists bh rest backHead backH, reorg_point P now p a bh rest = Some (backHead, backH) /\
+     1 <= k <= tip_height (a_s a) - backH /\
+     loop_r P now p k a hs = Return (crash_state P p (a_s a) k)).
+Proof.
+  induction hs as [|bh rest IH]; intros Hc a; [by left|].
+  destruct (headers_connected_tail bh rest Hc) as [Hc1 Hc2]. specialize (IH Hc2).
+  cbn [loop_r loop]. unfold step_header_r.
+  assert (Hgo : match step_header P now p a bh rest with
+                | Continue a' => loop_r P now p k a' rest | o => o end =
+                match step_header P now p a bh rest with
+                | Continue a' => loop P now p a' rest | o => o end \/
+     (exists bh0 rest0 backHead backH, reorg_point P now p a bh0 rest0 = Some (backHead, backH) /\
+        1 <= k <= tip_height (a_s a) - backH /\
+        match step_header P now p a bh rest with
+        | Continue a' => loop_r P now p k a' rest | o => o end = Return (crash_state P p (a_s a) k))).
+  { destruct (step_header P now p a bh rest) as [s'|a'|a'] eqn:Es; [by left| |by left].
+    destruct (last (hl (a_s a))) as [pn|] eqn:Hl.
+    2:{ unfold step_header in Es. rewrite Hl in Es. discriminate. }
+    destruct (step_continue_kind P now p a bh rest pn a' Hl Es) as [[-> _]|(nd & Hnd & Hb)].
+    - apply IH.
+    - left. apply loop_r_locked. exists nd. split; [exact Hnd|]. by rewrite Hb. }
+  destruct (reorg_point P now p a bh rest) as [[backHead backH]|] eqn:E; [|exact Hgo].
+  destruct ((1 <=? k) && (k <=? tip_height (a_s a) - backH)) eqn:Ek; [|exact Hgo].
+  right. exists bh, rest, backHead, backH. split; [done|]. split; [lia|done].
+Qed.
+
 (* ==================== the invariant ==================== *)
 Section Faults.
 Context (P : params) (U : header -> Prop) (T : Z -> Prop).
@@ -213,10 +254,66 @@ Proof.
     destruct (resync_spec P U T s2 HR) as [HI' Hc]. split; [done|]. rewrite Hc, Hzc. unfold zlen in *. lia.
 Qed.
 
+(* a restart needs much less than Inv of the state it starts from *)
+Lemma restart_Inv_weak s : trap s = false -> (exists tl, ChainOK P U T (chain s) tl) ->
+  0 < zlen (fchain s) <= zlen (chain s) -> Inv P U T (restart P s) /\ chain (restart P s) = chain s.
+Proof.
+  intros Ht [tl Htl] Hf. pose proof (ChainOK_ne _ _ _ _ _ Htl) as Hne.
+  unfold restart, chain_tip. destruct (last (chain s)) as [t|] eqn:Et; [|by apply last_None in Et].
+  split; [|done].
+  split; unfold tip_height; cbn [chain fchain hl nextCp ftipVar trap]; try done; try lia.
+  - by exists tl.
+  - by apply WM_single.
+Qed.
+
+Lemma crash_state_Inv p s k backH :
+  Inv P U T s -> 0 <= backH -> 1 <= k <= tip_height s - backH ->
+  Inv P U T (crash_state P p s k) /\ zlen (chain (crash_state P p s k)) <= zlen (chain s).
+Proof.
+  intros HI Hb Hk. unfold crash_state. unfold tip_height in *.
+  destruct (i_chain _ _ _ _ HI) as [tl Htl]. pose proof (co_lim _ _ _ _ _ Htl) as HLc.
+  set (s1 := set_sync (Some p) s). set (h := zlen (chain s) - 1 - k).
+  destruct (roll_back_spec (length (chain s1)) s1 h) as (R1 & R2 & R3 & R4 & R5 & R6 & R7 & R8 & R9);
+    [lia|done|apply (i_fle _ _ _ _ HI)|unfold zlen; cbn; lia|].
+  fold (roll_back_to h s1) in *. set (s2 := roll_back_to h s1) in *.
+  change (chain s1) with (chain s) in R1. change (fchain s1) with (fchain s) in R2.
+  change (trap s1) with (trap s) in R9.
+  pose proof (i_fne _ _ _ _ HI) as Hfne. pose proof (i_fle _ _ _ _ HI) as Hfle.
+  assert (Hzc : zlen (chain s2) = h + 1) by (rewrite R1; apply zlen_take; lia).
+  destruct (restart_Inv_weak (pop_event s2)) as [HI' Hc].
+  - cbn [pop_event trap]. rewrite R9. apply (i_trap _ _ _ _ HI).
+  - cbn [pop_event chain]. rewrite R1. eapply ChainOK_take; [exact Htl|lia].
+  - cbn [pop_event chain fchain]. rewrite Hzc, R2. unfold zlen at 1 2. rewrite take_length. unfold zlen in *. lia.
+  - split; [exact HI'|]. rewrite Hc. cbn [pop_event chain]. lia.
+Qed.
+
+Lemma handle_headers_r_Inv now p hs k s :
+  Inv P U T s -> T now -> Forall U hs -> zlen hs < memCap P -> zlen (chain s) + zlen hs <= LIMIT ->
+  Inv P U T (handle_headers_r P now p hs k s) /\
+  zlen (chain (handle_headers_r P now p hs k s)) <= zlen (chain s) + zlen hs.
+Proof.
+  intros HI HT HUs Hlen Hlim. pose proof (zlen_nonneg hs) as Hnn.
+  assert (Hord : handle_headers_r P now p hs k s = handle_headers P now p hs s ->
+    Inv P U T (handle_headers_r P now p hs k s) /\
+    zlen (chain (handle_headers_r P now p hs k s)) <= zlen (chain s) + zlen hs).
+  { intros ->. destruct (handle_headers_spec P U T HU HP now p hs s HI HT HUs Hlen Hlim) as [H1 H2].
+    split; [done|]. by eapply Trans_len. }
+  unfold handle_headers_r, handle_headers in *.
+  destruct hs as [|h0 hs0] eqn:Ehs; [by apply Hord|]. rewrite <- Ehs in *.
+  destruct (headers_connected hs) eqn:Hconn; cbn [negb] in *; [|by apply Hord].
+  fold (acc0 s) in *.
+  destruct (loop_r_cases P now p k hs Hconn (acc0 s)) as [E|(bh & rest & backHead & backH & Hrp & Hk & E)];
+    rewrite E in *; [by apply Hord|].
+  apply reorg_point_Some in Hrp as (pn & _ & _ & _ & Hfh & _). cbn [acc0 a_s] in *.
+  apply fetch_header_Some in Hfh as (n & -> & _ & _).
+  destruct (crash_state_Inv p s k (Z.of_nat n) HI ltac:(lia) Hk) as [HI' Hz].
+  destruct (resync_spec P U T _ (Inv_RInv P U T _ HI')) as [HI'' Hc]. split; [done|]. rewrite Hc. lia.
+Qed.
+
 (* ---------- operations with store write faults, histories ---------- *)
 Definition wf_op_f (o : op) : Prop :=
   match o with
-  | OHeadersF _ now hs _ => T now /\ Forall U hs /\ zlen hs < memCap P
+  | OHeadersF _ now hs _ | OHeadersR _ now hs _ => T now /\ Forall U hs /\ zlen hs < memCap P
   | _ => wf_op P U T o
   end.
 
@@ -227,7 +324,8 @@ Proof.
   assert (Hord : wf_op P U T o -> Inv P U T (step P s o) /\ zlen (chain (step P s o)) <= zlen (chain s) + op_size o).
   { intros Hw. split; [apply (step_spec P U T HU HP s o HI Hw Hlim)|apply (step_len P U T HU HP s o HI Hw Hlim)]. }
   destruct o; try (apply Hord; exact Hwf).
-  cbn [wf_op_f step op_size] in *. destruct Hwf as (HT & HUs & Hlen). by apply handle_headers_f_Inv.
+  - cbn [wf_op_f step op_size] in *. destruct Hwf as (HT & HUs & Hlen). by apply handle_headers_f_Inv.
+  - cbn [wf_op_f step op_size] in *. destruct Hwf as (HT & HUs & Hlen). by apply handle_headers_r_Inv.
 Qed.
 
 Lemma run_Inv_f ops : forall s, Inv P U T s -> Forall wf_op_f ops -> zlen (chain s) + ops_size ops <= LIMIT ->
